@@ -458,6 +458,34 @@ class NodeX:
         return _run(self)
 
 
+from labtech.cache import PickleCache  # noqa: E402
+
+SHARED_CACHE = PickleCache()      # one cache *instance* configured on two task types (a module-level `my_cache = ...`)
+
+
+@labtech.task(max_parallel=1, cache=SHARED_CACHE)
+class TS1:
+    ident: int
+    tag: str
+    deps: Any = ()
+    opt: Any = None
+
+    def run(self):
+        return _run(self)
+
+
+@labtech.task(max_parallel=1, cache=SHARED_CACHE)
+class TS2:
+    """Same cache instance and same max_parallel as TS1: the two limits are still separate."""
+    ident: int
+    tag: str
+    deps: Any = ()
+    opt: Any = None
+
+    def run(self):
+        return _run(self)
+
+
 def _late_types():
     from . import tasklib2
     return {'TA2': tasklib2.TA}
@@ -465,6 +493,7 @@ def _late_types():
 
 TYPES = {
     'TA': TA, 'TB': TB, 'TC': TC, 'TD': TD, 'TN': TN, 'TN1': TN1, 'TN2': TN2, 'TF': TF, 'TP': TP, 'TR': TR, 'TZ': TZ, 'TW': TA__w,
+    'TS1': TS1, 'TS2': TS2,
     'Node': Node, 'NodeX': NodeX,
 }
 
@@ -482,6 +511,7 @@ TYPE_INFO = {
     'TA': (None, 'pickle'), 'TB': (1, 'pickle'), 'TC': (2, 'pickle'), 'TD': (3, 'json'),
     'TN': (None, None), 'TN1': (1, None), 'TN2': (2, None), 'TF': (3, 'pickle'), 'TP': (2, 'pickle'), 'TR': (None, 'pickle'), 'TZ': (None, 'pickle'), 'TW': (None, 'pickle'),
     'Node': (None, 'pickle'), 'NodeX': (None, 'pickle'), 'TA2': (None, 'pickle'),
+    'TS1': (1, 'pickle'), 'TS2': (1, 'pickle'),
 }
 
 TYPE_QUALNAME = {
@@ -489,6 +519,7 @@ TYPE_QUALNAME = {
     'TD': 'simlab.tasklib.TD', 'TN': 'simlab.tasklib.TN', 'TN1': 'simlab.tasklib.TN1',
     'TP': 'simlab.tasklib.TP', 'TR': 'simlab.tasklib.TR', 'TN2': 'simlab.tasklib.TN2', 'TF': 'simlab.tasklib.TF', 'Node': 'simlab.tasklib.Node', 'NodeX': 'simlab.tasklib.NodeX',
     'TA2': 'simlab.tasklib2.TA', 'TZ': 'simlab.tasklib.TZ', 'TW': 'simlab.tasklib.TA__w',
+    'TS1': 'simlab.tasklib.TS1', 'TS2': 'simlab.tasklib.TS2',
 }
 
 
